@@ -97,6 +97,11 @@ CHECKS = {
             "Each case rewrites a file that the harness made black-clean under the configured mode and the result must be a fixed point of an independently constructed black.Mode; the not-clean twin must keep its layout outside the edited arguments.",
             "black 26.5.1; configuration read from the project directory (cwd); formatter instability is recorded separately.",
             "DESIGN.md 5/C20"),
+    "C13": ("model_checking",
+            "explicit-state BFS over session histories (edit payload, add/remove test file, sessions with flag sets, review answer vectors) with state deduplication, every session transition a real pytest session; lock-step conformance with an independent storage model; invariants in every state; exhaustive lookup probes",
+            "All histories up to the depth bound are explored from two initial states under several hash-length / storage-dir configurations; the storage model predicts listing and references of every transition and five invariants (name = sha256, persisted only with reference, -new pruned, removal only by approved trim of unreferenced data, written reference resolves uniquely) hold in every reached state.",
+            "Depth 2 (quick, main configuration) to 4 (thorough); payloads without prefix collisions; lookup clause probed directly on DiscStorage.read.",
+            "DESIGN.md 5/C13, A.3"),
 }
 
 NOT_APPLICABLE = {
